@@ -15,7 +15,7 @@ func init() {
 	register(&propertyDef{
 		id:    "C07",
 		title: "run-time failures surface as errors, never as a crash",
-		rules: []ruleFunc{c07R1, c07R2, c07R3, c07R4, c07R5, c07R6, c07R7, c07R8, c07R9, c07R10, c07R11},
+		rules: []ruleFunc{c07R1, c07R2, c07R3, c07R4, c07R5, c07R6, c07R7, c07R8, c07R9, c07R10, c07R11, c07R12},
 		decided: "no explicit panic is reachable in the run path except tabled internal invariants, some of which are discharged by checking their static reason (R1); " +
 			"every unchecked type assertion in the run path is justified by a dominating validation or by construction (R2); the error of expression resolution in the notify loop is routed to the error report, cancel and return (R3); " +
 			"(thorough) integer division/remainder in the expression evaluator is guarded by a zero test (R4); values tested for absence are not dereferenced on the failing branch (R5). Shared: variables shared with goroutines are written under a lock — concurrent map writes abort the process (R6 = C17.R2).",
@@ -1375,4 +1375,92 @@ func c07R11(c *Ctx) {
 		})
 	}
 	c.ok(rule, "count", "-", fmt.Sprintf("%d dereferenced map elements with run-time keys on the run path", n), false)
+}
+
+// library calls that panic when an argument is not positive / is negative: callee -> (argument index, strictly positive)
+var c07PanickingPreconditions = map[string]struct {
+	arg      int
+	positive bool
+	what     string
+}{
+	"time.NewTicker":         {0, true, "non-positive interval for NewTicker"},
+	"(*time.Ticker).Reset":   {1, true, "non-positive interval for Ticker.Reset"},
+	"strings.Repeat":         {1, false, "negative Repeat count"},
+	"bytes.Repeat":           {1, false, "negative Repeat count"},
+	"math/rand.Intn":         {0, true, "invalid argument to Intn"},
+	"(*math/rand.Rand).Intn": {1, true, "invalid argument to Intn"},
+}
+
+// C07.R12 library calls with a panicking precondition.
+func c07R12(c *Ctx) {
+	const rule = "C07.R12"
+	c.explain("C07.R12 on the run path, a call of a library function that panics on a non-positive / negative argument (time.NewTicker, Ticker.Reset, strings.Repeat, bytes.Repeat, rand.Intn) passes a constant that satisfies the precondition, or a value that is tested against zero on the dominating edge — the very value passed, not one it was computed from (a quotient or a product of a positive number can be zero or negative)")
+	n := 0
+	cnt := map[string]int{}
+	for _, fn := range c.runFns() {
+		eachInstr(fn, func(r instrRef) {
+			cc := callCommon(r.I)
+			if cc == nil {
+				return
+			}
+			pre, ok := c07PanickingPreconditions[calleeName(cc)]
+			if !ok || pre.arg >= len(cc.Args) {
+				return
+			}
+			n++
+			cnt[c.fnName(fn)]++
+			key := fmt.Sprintf("precondition@%s#%d", c.fnName(fn), cnt[c.fnName(fn)])
+			arg := cc.Args[pre.arg]
+			if k, isC := constInt(arg); isC {
+				c.verdict((pre.positive && k > 0) || (!pre.positive && k >= 0), rule, key, c.instrPos(r.I), "constant argument satisfies the precondition", "constant argument violates the precondition: "+pre.what)
+				return
+			}
+			okc := false
+			eachInstr(fn, func(r2 instrRef) {
+				ifi, isIf := r2.I.(*ssa.If)
+				if !isIf {
+					return
+				}
+				cnd, isB := ifi.Cond.(*ssa.BinOp)
+				if !isB {
+					return
+				}
+				op := cnd.Op
+				var k *ssa.Const
+				if cnd.X == arg {
+					k, _ = cnd.Y.(*ssa.Const)
+				} else if cnd.Y == arg {
+					k, _ = cnd.X.(*ssa.Const)
+					op = flipCmp(op)
+				}
+				if k == nil {
+					return
+				}
+				kv, isInt := constInt(k)
+				if !isInt {
+					return
+				}
+				for succ := 0; succ < 2; succ++ {
+					if !edgeDominates(r2.Block, succ, r.Block) {
+						continue
+					}
+					o := op
+					if succ == 1 {
+						o = negateCmp(o)
+					}
+					switch {
+					case o == token.GTR && kv >= 0, o == token.GEQ && kv >= 1:
+						okc = true
+					case !pre.positive && o == token.GEQ && kv >= 0, !pre.positive && o == token.GTR && kv >= -1:
+						okc = true
+					}
+				}
+			})
+			c.verdict(okc, rule, key, c.instrPos(r.I), "the argument is tested against zero on the dominating edge", "the argument of "+calleeName(cc)+" is a run-time value that is not itself tested on the dominating edge: "+pre.what+" panics the goroutine (a test of the value it was computed from does not bound it)")
+		})
+	}
+	c.Stats["c07_precondition_calls"] = n
+	if n == 0 {
+		c.ok(rule, "no-precondition-calls", "-", "the run path calls none of the tabled library functions with a panicking precondition", false)
+	}
 }
